@@ -14,7 +14,18 @@ RULE = ("random context-free grammars (ambiguous ones, epsilon productions and e
         "expansion) is validated by the exact tree checker, its get_leftmost_derivation / get_rightmost_derivation "
         "listings by the derivation checker, and refusals are compared with the membership oracle. FCFG trees are "
         "covered under C18's generator. Non-trivial: >=2 productions, one with a body of length >=2.")
-THEOREMS = []
+LEVEL = "proof"
+THEOREMS = ["Pfl.CFG.treeValid_sound",
+            "Pfl.CFG.treeValid_complete",
+            "Pfl.CFG.wellFormedT_gen",
+            "Pfl.CFG.leftStep_derives",
+            "Pfl.CFG.rightStep_derives",
+            "Pfl.CFG.derivationValid_sound",
+            "Pfl.CFG.leftmostD_valid",
+            "Pfl.CFG.rightmostD_valid",
+            "Pfl.CFG.cfgMem_iff",
+            "Pfl.CFG.toNormalForm_lang",
+            "Pfl.CFG.llParse_valid"]
 
 
 def generate(rng, tier):
